@@ -451,14 +451,17 @@ AccCaseOK(acc, k, L) == (Cyclic(k) => L > 0) /\ (IsObjK(k) \/ acc \notin {"Objec
 (* (global code, function code, eval code) with these documented particulars: *)
 (* a call of a built-in function is a context of its own ("native frame"), a  *)
 (* bound function adds none beyond its target (15.3.4.5.1), a DIRECT eval runs *)
-(* in the calling context (no new one), an indirect eval enters a global one.  *)
+(* in the calling context but counts as one level, an indirect eval enters a   *)
+(* global one.                                                                 *)
 (* Frames(form): the contexts entered per recursion level, outermost first.    *)
 RecForms == <<"direct", "mutual", "call", "apply", "bind", "forEach", "getter", "toString", "valueOf", "constructor",
               "evalDirect", "evalIndirect", "sortCompare", "replaceFn", "jsonToJSON">>
 UnboundedOnly == <<"cyclicJoin", "cyclicToString", "protoGetter", "setter", "callcall", "newBound",
                    "jsonToJSONFresh", "jsonReplacerFresh", "jsonToJSONFreshArray">>
 Step(form) ==
-    CASE form \in {"direct", "mutual", "bind", "getter", "toString", "valueOf", "constructor", "evalDirect"} -> <<"function">>
+    CASE form \in {"direct", "mutual", "bind", "getter", "toString", "valueOf", "constructor"} -> <<"function">>
+      [] form = "evalDirect" -> <<"evalcode", "function">>      \* a direct eval runs in the calling context but is one nesting level
+                                                              \* (since repair of F32: eval code that evals itself must hit the limit)
       [] form \in {"call", "apply", "forEach"} -> <<"native", "function">>
       [] form = "evalIndirect" -> <<"native", "global", "function">>
       [] form \in {"sortCompare", "replaceFn"} -> <<"native", "function", "function">>       \* built-in, callback, f
